@@ -59,6 +59,34 @@ func signRejects(n *big.Int, x1 *big.Int, e, d, k *big.Int) bool {
 	return s.Sign() == 0
 }
 
+// sigLive checks the signature (r, s) with the library's verifier under the public half of the key
+// object priv (digest e, or the SM2 digest of msg under uid when e is nil).
+func sigLive(priv *sm2.PrivateKey, e, uid, msg []byte, r, s *big.Int) func() []byte {
+	der, err := asn1.Marshal(struct{ R, S *big.Int }{r, s})
+	if err != nil {
+		return nil
+	}
+	return func() []byte {
+		ev := e
+		if ev == nil {
+			ev = refDigest(uid, msg, priv.X, priv.Y)
+		}
+		return []byte(fmt.Sprintf("verifies=%v", sm2.VerifyASN1(&priv.PublicKey, ev, der)))
+	}
+}
+
+// ctLive decrypts the ciphertext with the key object priv.
+func ctLive(priv *sm2.PrivateKey, ct []byte, variant string) func() []byte {
+	var opts *sm2.DecrypterOpts
+	if variant == "Encrypt(C1C2C3)" {
+		opts = sm2.NewPlainDecrypterOpts(sm2.C1C2C3)
+	}
+	return func() []byte {
+		pt, err := priv.Decrypt(nil, ct, opts)
+		return []byte(fmt.Sprintf("decrypts to %x (err=%v)", pt, err))
+	}
+}
+
 // recoverK is k = s(1+d) + r d mod n.
 func recoverK(n, r, s, d *big.Int) *big.Int {
 	k := new(big.Int).Mul(s, new(big.Int).Add(d, one))
@@ -241,6 +269,7 @@ func sm2SignCallOn(obj *sm2.PrivateKey, d *big.Int, hash, msg, uid []byte, varia
 			return
 		}
 		o.recovered = recoverK(sm2N, rr, ss, d)
+		o.live = sigLive(priv, e, uid, msg, rr, ss)
 		o.reject = func(k *big.Int) bool {
 			ev := e
 			if ev == nil {
@@ -312,6 +341,7 @@ func sm2EncryptCallOn(obj *sm2.PrivateKey, d *big.Int, msg []byte, variant strin
 		}
 		o.output = fmt.Sprintf("ciphertext %x", ct)
 		o.out = ct
+		o.live = ctLive(priv, ct, variant)
 		o.match = func(k *big.Int) string {
 			p := ec.BaseMul(k)
 			if isASN1 {
@@ -484,30 +514,33 @@ func sm2KxInitCall(obj *sm2KxObj, p kxParties, rPeer *big.Int) *call {
 		rx, ry := new(big.Int).Set(R.X), new(big.Int).Set(R.Y)
 		o.out = append(b32(rx), b32(ry)...)
 		o.match = func(k *big.Int) string { return pointDiff("RA", rx, ry, k) }
-		o.follow = func(k *big.Int) string { // steps A4-A10 against the honest responder of the reference model
+		o.follow = func(k *big.Int, opt followOpt) (string, error) { // steps A4-A10 against the honest responder of the reference model
 			if ko.destroyed {
-				return ""
+				return "", nil
 			}
 			ref, err := sm2kx.Run(sm2kx.Session{DA: p.dOwn, DB: p.dPeer, RA: k, RB: rPeer, IDA: effUID(p.uidOwn), IDB: effUID(p.uidPeer), KLen: p.keyLen})
 			if err != nil || ref.Infinity {
-				return ""
+				return "", nil
 			}
 			var sB []byte
-			if p.sig {
+			if p.sig && !opt.withhold {
 				sB = ref.SB
 			}
 			ko.needPeer()
 			key, sA, err := ko.ke.ConfirmResponder(ecPub(ref.EB), sB)
 			if err != nil {
-				return fmt.Sprintf("ConfirmResponder refuses the honest responder's answer (RB=[%x]G, SB) to RA=[k]G: %v - the object does not continue with the scalar it sampled", rPeer, err)
+				if opt.lenient && len(key) == 0 && len(sA) == 0 {
+					return "", err
+				}
+				return fmt.Sprintf("ConfirmResponder refuses the honest responder's answer (RB=[%x]G, SB) to RA=[k]G: %v (returning key %x) - the object does not continue with the scalar it sampled", rPeer, err, key), nil
 			}
 			if !bytes.Equal(key, ref.K) {
-				return fmt.Sprintf("ConfirmResponder derives key %x, GB/T 32918.3 with rA=k gives %x - the object does not continue with the scalar it sampled", key, ref.K)
+				return fmt.Sprintf("ConfirmResponder derives key %x, GB/T 32918.3 with rA=k gives %x - the object does not continue with the scalar it sampled", key, ref.K), nil
 			}
 			if p.sig && !bytes.Equal(sA, ref.SA) {
-				return fmt.Sprintf("ConfirmResponder returns SA=%x, GB/T 32918.3 with rA=k gives %x", sA, ref.SA)
+				return fmt.Sprintf("ConfirmResponder returns SA=%x, GB/T 32918.3 with rA=k gives %x", sA, ref.SA), nil
 			}
-			return ""
+			return "", nil
 		}
 		return
 	}
@@ -541,29 +574,34 @@ func sm2KxRespondCall(obj *sm2KxObj, p kxParties, rPeer *big.Int) *call {
 		s2 = append([]byte{}, s2...)
 		o.out = append(append(b32(rx), b32(ry)...), s2...)
 		o.match = func(k *big.Int) string { return pointDiff("RB", rx, ry, k) }
-		o.follow = func(k *big.Int) string { // SB and step B10 against the honest initiator of the reference model
+		o.follow = func(k *big.Int, opt followOpt) (string, error) { // SB and step B10 against the honest initiator of the reference model
 			if ko.destroyed {
-				return ""
+				return "", nil
 			}
 			ref, err := sm2kx.Run(sm2kx.Session{DA: p.dPeer, DB: p.dOwn, RA: rPeer, RB: k, IDA: effUID(p.uidPeer), IDB: effUID(p.uidOwn), KLen: p.keyLen})
 			if err != nil || ref.Infinity {
-				return ""
+				return "", nil
 			}
 			var s1 []byte
 			if p.sig {
 				if !bytes.Equal(s2, ref.SB) {
-					return fmt.Sprintf("confirmation SB=%x, GB/T 32918.3 with rB=k gives %x - the shared point was not computed with the sampled scalar", s2, ref.SB)
+					return fmt.Sprintf("confirmation SB=%x, GB/T 32918.3 with rB=k gives %x - the shared point was not computed with the sampled scalar", s2, ref.SB), nil
 				}
-				s1 = ref.SA
+				if !opt.withhold {
+					s1 = ref.SA
+				}
 			}
 			key, err := ko.ke.ConfirmInitiator(s1)
 			if err != nil {
-				return fmt.Sprintf("ConfirmInitiator refuses the honest initiator's confirmation for RB=[k]G: %v", err)
+				if opt.lenient && len(key) == 0 {
+					return "", err
+				}
+				return fmt.Sprintf("ConfirmInitiator refuses the honest initiator's confirmation for RB=[k]G: %v (returning key %x)", err, key), nil
 			}
 			if !bytes.Equal(key, ref.K) {
-				return fmt.Sprintf("ConfirmInitiator derives key %x, GB/T 32918.3 with rB=k gives %x - the object does not continue with the scalar it sampled", key, ref.K)
+				return fmt.Sprintf("ConfirmInitiator derives key %x, GB/T 32918.3 with rB=k gives %x - the object does not continue with the scalar it sampled", key, ref.K), nil
 			}
-			return ""
+			return "", nil
 		}
 		return
 	}
@@ -593,7 +631,7 @@ func prepECDHGenKey(x *env, r *mon.Rand, variant string) *call {
 			p := ec.BaseMul(k)
 			return c1Diff(pub, p.X, p.Y)
 		}
-		o.follow = func(k *big.Int) string { // the key object carries the sampled scalar into a Diffie-Hellman
+		o.follow = func(k *big.Int, _ followOpt) (string, error) { // the key object carries the sampled scalar into a Diffie-Hellman
 			q := ec.BaseMul(dPeer)
 			peer, err := ecdh.P256().NewPublicKey(q.Marshal())
 			if err != nil {
@@ -601,11 +639,11 @@ func prepECDHGenKey(x *env, r *mon.Rand, variant string) *call {
 			}
 			want, err := sm2kx.ECDH(k, q)
 			if err != nil {
-				return ""
+				return "", nil
 			}
 			got, err := key.ECDH(peer)
 			if err != nil || !bytes.Equal(got, want) {
-				return fmt.Sprintf("ECDH of the generated key with [%x]G gives %x (err=%v), the sampled scalar gives %x", dPeer, got, err, want)
+				return fmt.Sprintf("ECDH of the generated key with [%x]G gives %x (err=%v), the sampled scalar gives %x", dPeer, got, err, want), nil
 			}
 			// and as the ephemeral key of an SM2 key agreement (static key dStatic; peer: static [dPeer]G, ephemeral [rPeer]G)
 			static, err := ecdh.P256().NewPrivateKey(b32(dStatic))
@@ -619,13 +657,16 @@ func prepECDHGenKey(x *env, r *mon.Rand, variant string) *call {
 			}
 			v, err := sm2kx.SharedPoint(dStatic, k, ec.BaseMul(k), q, rq)
 			if err != nil {
-				return ""
+				return "", nil
 			}
 			uv, err := static.SM2MQV(key, peer, ePeer)
-			if err != nil || !bytes.Equal(uv.Bytes(), v.Marshal()) {
-				return fmt.Sprintf("SM2MQV with the generated key as ephemeral key gives %x (err=%v), GB/T 32918.3 with r = sampled scalar gives %x", uv.Bytes(), err, v.Marshal())
+			if err != nil {
+				return fmt.Sprintf("SM2MQV with the generated key as ephemeral key fails: %v", err), nil
 			}
-			return ""
+			if !bytes.Equal(uv.Bytes(), v.Marshal()) {
+				return fmt.Sprintf("SM2MQV with the generated key as ephemeral key gives %x, GB/T 32918.3 with r = sampled scalar gives %x", uv.Bytes(), v.Marshal()), nil
+			}
+			return "", nil
 		}
 		return
 	}
@@ -695,6 +736,7 @@ func legacySignCallOn(obj *sm2.PrivateKey, d *big.Int, hash []byte, variant stri
 			o.out = []byte(o.output)
 		}
 		o.recovered = recoverK(nistN, rr, ss, d)
+		o.live = sigLive(priv, hash, nil, nil, rr, ss)
 		o.reject = func(k *big.Int) bool {
 			x1, _ := elliptic.P256().ScalarBaseMult(b32(k))
 			e := new(big.Int).SetBytes(leftmost32(hash))
@@ -737,6 +779,7 @@ func legacyEncryptCallOn(obj *sm2.PrivateKey, d *big.Int, msg []byte, variant st
 		}
 		o.output = fmt.Sprintf("ciphertext %x", ct)
 		o.out = ct
+		o.live = ctLive(priv, ct, variant)
 		o.match = func(k *big.Int) string {
 			px, py := elliptic.P256().ScalarBaseMult(b32(k))
 			if variant == "EncryptASN1" {
